@@ -19,11 +19,13 @@ import (
 	"path/filepath"
 	"sort"
 	"strings"
+
+	"verifharness/internal/vh"
 )
 
-const srcFile = "/repo/core/protocol_version_processor.go"
-const hdrFile = "/repo/core/types/block.go"
-const paramsFile = "/repo/params/config.go"
+var srcFile = vh.RepoRoot() + "/core/protocol_version_processor.go"
+var hdrFile = vh.RepoRoot() + "/core/types/block.go"
+var paramsFile = vh.RepoRoot() + "/params/config.go"
 
 // Go field name -> Lean field name, for the two record types of the prelude.
 var hdrFields = map[string]string{
